@@ -2,6 +2,8 @@
 
 package raft
 
+import "io"
+
 // vh_catchup_session: two REAL objects. A freshly elected leader (log
 // base+1..base+lenL, snapshot at base) runs replicateTo against a follower whose
 // transport delivers every AppendEntries to the follower's real appendEntries.
@@ -127,4 +129,150 @@ func vh_catchup_session() {
 		}
 	}
 	vReach("session.end")
+}
+
+// vh_snapshot_session: two REAL objects, compacted leader. The leader's log starts above its snapshot
+// (index base+1), the follower's log ends below it (a lagging, restarted or new server): the real
+// replicateTo finds no previous entry, ships its newest snapshot through the real sendLatestSnapshot,
+// the follower's real installSnapshot (with its real FSM goroutine) installs it, and replicateTo goes on
+// with AppendEntries from the snapshot boundary until the follower has caught up. C12 (snapshot
+// installation makes progress and is followed by log replication), C02/C11 (FSM = snapshot + the
+// leader's committed entries, in order), C04.
+func vh_snapshot_session() {
+	w := 3
+	base := vBase()
+	L, lenv := vNewRaft("L", vRaftOpts{n: 2, w: w})
+	F, fenv := vNewRaft("F", vRaftOpts{n: 1, w: w})
+	ls, fs := lenv.logs, fenv.logs
+	// leader: snapshot at base+1, log base+2 .. base+1+lenL (lenL in 1..2), entry base+1 compacted away
+	lenL := vChoose("L.len", 1, 2)
+	si := base + 1
+	vAssume(base >= 1)
+	ls.low, ls.high = base+2, base+1+uint64(lenL)
+	for k := 1; k <= w; k++ {
+		idx := base + uint64(k)
+		if k >= 2 && k <= 1+lenL {
+			ls.present.Set(idx, 1)
+		} else {
+			ls.present.Set(idx, 0)
+		}
+		t := ls.typ.Get(idx)
+		vAssume(vOr(t == uint64(LogCommand), t == uint64(LogNoop)))
+		vAssume(vCanonBlobCell(ls.data.Get(idx)))
+		vAssume(vCanonBlobCell(ls.ext.Get(idx)))
+	}
+	L.lastSnapshotIndex, L.lastSnapshotTerm = si, vU64("L.snapTerm")
+	L.lastLogIndex, L.lastLogTerm = ls.high, ls.term.Get(ls.high)
+	vAssume(L.lastSnapshotTerm <= ls.term.Get(base+2))
+	if lenL == 2 {
+		vAssume(ls.term.Get(base+2) <= ls.term.Get(base+3))
+	}
+	vAssume(L.lastLogTerm == L.currentTerm && L.currentTerm < 1<<62) // its own no-op/entry is last
+	L.commitIndex = base + 1 + uint64(vChoose("L.commitOff", 0, lenL))
+	L.lastApplied = L.commitIndex
+	vAssume(lenv.stable.term == L.currentTerm && lenv.stable.voteTerm <= L.currentTerm)
+	snapCfg := vConfig("snapcfg", 1, false)
+	snapSize := vI64("snap.size")
+	vAssume(snapSize >= 0)
+	lenv.snaps.metas = []*SnapshotMeta{{Version: SnapshotVersionMax, ID: "lsnap", Index: si, Term: L.lastSnapshotTerm,
+		Configuration: snapCfg.Clone(), ConfigurationIndex: vU64("snap.cfgIndex"), Size: snapSize}}
+	vAssume(lenv.snaps.metas[0].ConfigurationIndex <= si)
+	L.configurations.latestIndex, L.configurations.committedIndex = lenv.snaps.metas[0].ConfigurationIndex, lenv.snaps.metas[0].ConfigurationIndex
+	// follower: everything it has lies below the leader's snapshot: snapshot at base (or none when base is its start), log empty or just base.. nothing above
+	fs.low, fs.high = 0, 0
+	for k := 1; k <= w; k++ {
+		fs.present.Set(base+uint64(k), 0)
+	}
+	F.lastSnapshotIndex, F.lastSnapshotTerm = base, vU64("F.snapTerm")
+	vAssume(F.lastSnapshotTerm <= L.lastSnapshotTerm)
+	if vChoose("F.cacheAtSnapshot", 0, 1) == 1 {
+		F.lastLogIndex, F.lastLogTerm = base, F.lastSnapshotTerm
+	} else {
+		F.lastLogIndex, F.lastLogTerm = 0, 0
+	}
+	F.commitIndex = vIte64(vBool("F.commitZero"), 0, base)
+	F.lastApplied = base
+	F.state = Follower
+	vAssume(F.currentTerm <= L.currentTerm && fenv.stable.term == F.currentTerm && fenv.stable.voteTerm <= F.currentTerm && F.lastSnapshotTerm <= F.currentTerm)
+	F.configurations.latestIndex, F.configurations.committedIndex = vU64("F.cfgIndex"), 0
+	vAssume(F.configurations.latestIndex <= base)
+	F.configurations.committedIndex = F.configurations.latestIndex
+	vAssume(L.configurations.latest.Servers[0].Suffrage == Voter)
+	vAssume(L.configurations.latest.Servers[1].Suffrage == Voter)
+	vMakeLeader(L, "L", 0)
+	peer := L.configurations.latest.Servers[1]
+	s := L.leaderState.replState[peer.ID]
+	s.failures = 0
+	lastIndex := L.getLastIndex()
+	// wherever the leader believes the follower is, at or below the snapshot boundary: the previous entry is not in the leader's log
+	s.nextIndex = base + uint64(vChoose("nextOff", 1, 1))
+	cfg := L.conf.Load().(Config)
+	cfg.MaxAppendEntries = vChoose("maxAE", 1, 2)
+	L.conf.Store(cfg)
+	vNoIOFaults()
+	vIOSize(snapSize)
+	nAE, nSnap := 0, 0
+	lenv.trans.onAppend = func(id ServerID, a *AppendEntriesRequest, resp *AppendEntriesResponse) error {
+		nAE++
+		vAssert(nAE <= 2*w+3, "C12.snapsession.bounded-rpcs")
+		vAssert(nSnap == 1, "C12.snapsession.snapshot-before-entries")
+		rpc, ch := vMakeRPC(a)
+		F.appendEntries(rpc, a)
+		out := <-ch
+		*resp = *(out.Response.(*AppendEntriesResponse))
+		return out.Error
+	}
+	lenv.trans.onSnapshot = func(id ServerID, a *InstallSnapshotRequest, resp *InstallSnapshotResponse, data io.Reader) error {
+		nSnap++
+		vAssert(nSnap <= 1, "C12.snapsession.snapshot-sent-once")
+		rpc, ch := vMakeRPC(a)
+		rpc.Reader = &mReader{}
+		F.installSnapshot(rpc, a)
+		out := <-ch
+		*resp = *(out.Response.(*InstallSnapshotResponse))
+		return out.Error
+	}
+	vGo(F.runFSM)
+	vTimerMode(1)
+	vAssertNoPanic("C02.snapsession.no-panic")
+	stop := L.replicateTo(s, lastIndex)
+	vQuiesce() // let the follower's FSM goroutine consume what it was handed
+	vAssert(!stop, "C12.snapsession.no-stop")
+	vCover("snapsession.done")
+	vAssert(nSnap == 1, "C12.snapsession.snapshot-installed-once")
+	vAssert(s.nextIndex == lastIndex+1, "C12.snapsession.caught-up")
+	vAssert(F.currentTerm == L.currentTerm, "C01.snapsession.follower-adopts-term")
+	vAssert(F.lastSnapshotIndex == si && F.lastSnapshotTerm == L.lastSnapshotTerm, "C11.snapsession.follower-snapshot-is-leaders")
+	for k := 2; k <= 1+lenL; k++ {
+		idx := base + uint64(k)
+		same := vAnd(fs.term.Get(idx) == ls.term.Get(idx), vAnd(fs.typ.Get(idx) == ls.typ.Get(idx), fs.data.Get(idx) == ls.data.Get(idx)))
+		vAssert(vAnd(fs.has(idx), same), "C04.snapsession.logs-equal-above-snapshot")
+	}
+	fl, _ := F.getLastLog()
+	vAssert(fl == lastIndex, "C04.snapsession.last-log-is-leaders")
+	vAssert(F.commitIndex == L.commitIndex || (F.commitIndex == 0 && L.commitIndex <= si), "C05.snapsession.follower-commit-follows-leader")
+	vAssert(vSameServers(F.configurations.latest.Servers, snapCfg.Servers), "C11.snapsession.configuration-from-snapshot")
+	// the follower's FSM: restored once from the snapshot, then the leader's committed Command entries above it, in order, once
+	nRestore := 0
+	next := si + 1
+	for _, c := range fenv.fsm.calls {
+		switch c.op {
+		case opFSMRestore:
+			nRestore++
+			vAssert(next == si+1, "C02.snapsession.restore-before-any-apply")
+		case opFSMApply:
+			vCover("snapsession.fed-fsm")
+			vAssert(nRestore == 1, "C02.snapsession.apply-only-after-restore")
+			vAssert(c.index >= next && c.index <= L.commitIndex, "C02.snapsession.feed-committed-in-order")
+			vAssert(c.term == ls.term.Get(c.index) && uint64(c.typ) == ls.typ.Get(c.index) && vBlobToCell(c.data) == ls.data.Get(c.index), "C02.snapsession.feed-equals-leader-entry")
+			for k := 2; k <= 1+lenL; k++ {
+				idx := base + uint64(k)
+				vAssert(vImplies(vAnd(idx >= next, idx < c.index), ls.typ.Get(idx) == uint64(LogNoop)), "C02.snapsession.skipped-only-noop")
+			}
+			next = c.index + 1
+		}
+	}
+	vAssert(nRestore == 1, "C02.snapsession.restored-once")
+	vAssert(F.lastApplied == vIte64(L.commitIndex > si, L.commitIndex, si), "C02.snapsession.applied-is-leader-commit")
+	vReach("snapsession.end")
 }
